@@ -21,6 +21,7 @@ META = {
                   "compared (as the property states).  Cases where a solver dies (CPU limit, native stack overflow, "
                   "panic) are not comparable and are counted separately.",
     "design_ref": "DESIGN.md §4 C04",
+    "bins": ["solve"],
     "assumptions": [
         "harness translation of chalk_ir answers to first-order terms (binder-carrying types dyn/fn are opaque constants labelled by their Debug text)",
         "answers are compared per (program, goal) with a fresh solver each; history effects are C10's",
